@@ -26,6 +26,7 @@ import (
 	"go/ast"
 	"go/parser"
 	"go/token"
+	"regexp"
 	"strconv"
 	"strings"
 )
@@ -53,30 +54,30 @@ type FoldSpec struct {
 }
 
 type Contract struct {
-	FuncName  string
-	Pkg       string
-	Props     []string
-	Returns   []string
-	Requires  []*Clause
-	Ensures   []*Clause
-	Modifies  []*Clause
-	HasMod    bool
-	Loops     map[int]*LoopSpec
-	Folds     map[int]*FoldSpec
-	Trusted   string
-	NoSafety  map[string]string
-	Ghost     []string // ghost statements (unused for now)
-	File      string
-	Line      int
-	Theory    string
-	Assumes   []*Clause // assumptions at function entry beyond requires (listed in evidence)
+	FuncName    string
+	Pkg         string
+	Props       []string
+	Returns     []string
+	Requires    []*Clause
+	Ensures     []*Clause
+	Modifies    []*Clause
+	HasMod      bool
+	Loops       map[int]*LoopSpec
+	Folds       map[int]*FoldSpec
+	Trusted     string
+	NoSafety    map[string]string
+	Ghost       []string // ghost statements (unused for now)
+	File        string
+	Line        int
+	Theory      string
+	Assumes     []*Clause // assumptions at function entry beyond requires (listed in evidence)
 	AssumedPost []*Clause // postconditions assumed at call sites but not proved for the body (boundary; listed in evidence)
-	SafetyOff bool
-	Extern    bool
-	ParamNames []string // names for unnamed parameters of interface methods
-	CallSites  []*CallSiteSpec
-	ModAssumed bool // the modifies clause is assumed, not checked against the body
-	DeclPkg   string // package whose contract file declares an extern contract
+	SafetyOff   bool
+	Extern      bool
+	ParamNames  []string // names for unnamed parameters of interface methods
+	CallSites   []*CallSiteSpec
+	ModAssumed  bool   // the modifies clause is assumed, not checked against the body
+	DeclPkg     string // package whose contract file declares an extern contract
 }
 
 type CallSiteSpec struct {
@@ -105,16 +106,16 @@ type Axiom struct {
 }
 
 type ContractSet struct {
-	Funcs   map[string]*Contract // key: pkgpath + "::" + relname
-	Defines map[string]*Define   // key: pkgpath + "::" + name
-	Axioms  []*Axiom
-	NonNil  [][2]string // (package, type expression)
+	Funcs        map[string]*Contract // key: pkgpath + "::" + relname
+	Defines      map[string]*Define   // key: pkgpath + "::" + name
+	Axioms       []*Axiom
+	NonNil       [][2]string // (package, type expression)
 	NonNilFields [][3]string // (package, T.f, kind)
 	NonNilBoxed  [][2]string
 	Frames       []*FrameSpec
 	Guarded      []*FrameSpec
 	Commutes     []*FrameSpec
-	Errors  []string
+	Errors       []string
 }
 
 func (cs *ContractSet) lookup(pkg, rel string) *Contract {
@@ -358,6 +359,9 @@ func (cs *ContractSet) parseFile(fset *token.FileSet, f *ast.File, pkgPath, file
 				if err != nil {
 					errf(l.line, "%v", err)
 					return nil
+				}
+				for _, m := range watchedRe.FindAllStringSubmatch(rest, -1) {
+					watchedCallees[m[2]] = true
 				}
 				return &Clause{Name: name, Text: rest, Expr: e, Line: l.line, File: fileName, Props: props, Using: using}
 			}
@@ -644,3 +648,8 @@ func parseDefine(s string) (*Define, error) {
 	df.Body = e
 	return df, nil
 }
+
+// callees named in lastresult(F) / lastarg(F, i) / atlast(F, e): the engine keeps a ghost record of
+// their most recent call on every path
+var watchedRe = regexp.MustCompile(`(lastresult|lastarg|atlast)\(\s*([A-Za-z_][A-Za-z0-9_]*)`)
+var watchedCallees = map[string]bool{}
